@@ -186,6 +186,22 @@ Proof.
     simpl. now rewrite Hk1, Hk2.
 Qed.
 
+(* the same for a (possibly schema-qualified) table name: its first component decides *)
+Lemma table_not_kw : forall q kw p t rest, sforall idchar kw = true -> snonempty kw = true ->
+  table_ok q t = true ->
+  (q = QNone -> (match tschema t with s :: _ => s | [] => tname t end) <> kw) -> sp_or_end rest = true ->
+  strip_prefix (kw ++ String " " p) (render_table q t ++ rest) = None.
+Proof.
+  intros q kw p t rest Hk Hne Ht Hq Hr. destruct (table_ok_parts _ _ Ht) as [Hp Ha].
+  rewrite render_table_path by assumption. destruct t as [n [|s sc] al]; unfold tpath, render_path in *; cbn [tschema tname] in *.
+  - simpl in Hp. apply Bool.andb_true_iff in Hp as [Hn _]. simpl app. simpl map. simpl join.
+    apply name_not_kw; auto using sp_or_end_stops.
+  - simpl app in *. cbn [forallb] in Hp. apply Bool.andb_true_iff in Hp as [Hs _].
+    destruct (sc ++ [n])%list as [|y ys] eqn:E; [destruct sc; discriminate|].
+    change (join "." (map (fqq q) (s :: y :: ys))) with (fqq q s ++ String "." (join "." (map (fqq q) (y :: ys)))).
+    rewrite sapp_assoc. apply name_not_kw; auto.
+Qed.
+
 Lemma kw_free_neq : forall n, kw_free QNone n = true ->
   n <> "IF" /\ n <> "PERIOD" /\ n <> "UNIQUE" /\ n <> "PRIMARY" /\ n <> "FOREIGN".
 Proof.
